@@ -460,11 +460,17 @@ func ownLastIndexPhi(fi *FuncInfo, v *Sym, lastIndex *ssa.Function, idF *types.V
 		return false
 	}
 	shape := true
+	var paramVals []*ssa.Parameter
 	f := fi.phiBF(ph, 0, func(e ssa.Value) *BF {
 		if k, isK := e.(*ssa.Const); isK && k.Value != nil && k.Value.String() == "0" {
 			return bfConst(false)
 		}
 		if es := fi.Sym(e); es.K == KCall && es.Fn == lastIndex {
+			return bfConst(true)
+		}
+		if prm, isP := e.(*ssa.Parameter); isP {
+			// the last index handed in by the caller: checked at every call site below
+			paramVals = append(paramVals, prm)
 			return bfConst(true)
 		}
 		shape = false
@@ -473,28 +479,60 @@ func ownLastIndexPhi(fi *FuncInfo, v *Sym, lastIndex *ssa.Function, idF *types.V
 	if f == nil || !shape {
 		return false
 	}
-	am := map[string]*BAtom{}
-	f.atoms(am)
-	for _, a := range am {
-		if a.EqL == nil || len(a.EqL.T) != 2 || a.EqL.K != 0 {
-			continue
+	impliesOwn := func(g *BF) bool {
+		am := map[string]*BAtom{}
+		g.atoms(am)
+		for _, a := range am {
+			if a.EqL == nil || len(a.EqL.T) != 2 || a.EqL.K != 0 {
+				continue
+			}
+			hasID, hasParam := false, false
+			for _, s := range a.EqL.S {
+				if s.K == KField && s.Fld == idF {
+					hasID = true
+				}
+				if s.K == KParam {
+					hasParam = true
+				}
+			}
+			if hasID && hasParam {
+				if ok, _ := bfImplies(g, &BF{Op: 'a', Atom: a}); ok {
+					return true
+				}
+			}
 		}
-		hasID, hasParam := false, false
-		for _, s := range a.EqL.S {
-			if s.K == KField && s.Fld == idF {
-				hasID = true
-			}
-			if s.K == KParam {
-				hasParam = true
+		return false
+	}
+	if len(paramVals) == 0 {
+		return impliesOwn(f)
+	}
+	// a helper: at each of its call sites the value parameter is lastIndex() and the selecting
+	// condition, rewritten in the caller's terms, entails `<closure parameter> == r.id`
+	p := fi.P
+	sites := p.CallsTo(fi.Fn)
+	if len(sites) == 0 {
+		return false
+	}
+	for _, cs := range sites {
+		cfi := p.Info(cs.Caller)
+		args := callArgs(cs.Instr)
+		if len(args) != len(fi.Fn.Params) {
+			return false
+		}
+		m := map[ssa.Value]*Sym{}
+		for i, prm := range fi.Fn.Params {
+			m[prm] = cfi.Sym(args[i])
+		}
+		for _, pv := range paramVals {
+			if a := m[pv]; !(a.K == KCall && a.Fn == lastIndex) {
+				return false
 			}
 		}
-		if hasID && hasParam {
-			if ok, _ := bfImplies(f, &BF{Op: 'a', Atom: a}); ok {
-				return true
-			}
+		if !impliesOwn(substBF(f, m)) {
+			return false
 		}
 	}
-	return false
+	return true
 }
 
 // C06.F — follower-side commit clamps and other commit sources.
